@@ -479,3 +479,48 @@ Fixpoint run2 (pt : ptab) (s : state2) (ops : list (bool * op)) : list (bool * o
   end.
 
 Definition init_state2 (ct : ctab) : state2 := (ct, ([], []), ([], [])).
+
+(* ---------- a trait_added listener that declares traits lazily ----------
+   get_prefix_trait (ctraits.c l.622-645): after caching the resolved trait it assigns
+   obj.trait_added = name (l.634) and then RE-READS the trait with get_trait(obj, name, 0)
+   (l.638: instance dict first), so an instance trait that a trait_added listener installs with
+   add_trait(name, ...) governs the very access that triggered the resolution.
+   add_trait (has_traits.py l.2835-2870) fires trait_added itself when _trait(name, 0) was None,
+   after itrait_dict[name] = trait: the listener's add_trait then overwrites that entry (inside
+   the listener _trait(name, 0) is not None any more, so there is no further event).
+   The listener is a table prefix -> policy of the class ("names starting with n_ are Int(7)");
+   [step_l] wraps [step]: the resolution, the listener's add_trait, then the access itself.
+   Cut: sub-traits of mapped traits and nested assignments do not call the listener. *)
+Fixpoint listener (lst : list (name * policy)) (n : name) : option policy :=
+  match lst with
+  | [] => None
+  | (q, p) :: r => if is_prefix q n then Some p else listener r n
+  end.
+
+Definition step_l (lst : list (name * policy)) (pt : ptab) (s : state) (o : op) : state * obs :=
+  let n := op_name o in
+  match listener lst n with
+  | None => step pt s o
+  | Some lp =>
+      if amem n (s_itd s) || amem n (s_ctd s) then step pt s o      (* known name: no trait_added *)
+      else
+        let pre := fun (is_set : bool) =>
+          match prefix_trait pt s n is_set with
+          | inl (_, s') => step pt (mkState (s_ctd s') (aset n lp (s_itd s')) (s_od s')) o
+          | inr _ => step pt s o                                     (* __x__ read: nothing resolved *)
+          end in
+        match o with
+        | OGet _ => if amem n (s_od s) then step pt s o else pre false
+        | OSet _ _ | ODel _ => pre true
+        | OAdd _ _ => let '(s1, ob) := step pt s o in
+                      (mkState (s_ctd s1) (aset n lp (s_itd s1)) (s_od s1), ob)
+        | ORem _ => step pt s o
+        end
+  end.
+
+Definition step2_l (lst : list (name * policy)) (pt : ptab) (s : state2) (w : bool) (o : op) : state2 * obs :=
+  let '(ctd, a, b) := s in
+  let me := if w then b else a in
+  let '(s', ob) := step_l lst pt (mkState ctd (fst me) (snd me)) o in
+  let me' := (s_itd s', s_od s') in
+  ((s_ctd s', if w then a else me', if w then me' else b), ob).
